@@ -88,6 +88,8 @@ def parse_one(name):
         h = hashlib.sha256()
         h.update(observe.digest(o).encode())
         h.update(str(c).encode())
+        if EDIT[0]:
+            edit_in_place(c)
         return "chart:" + h.hexdigest()[:24]
     except Exception as e:  # noqa: BLE001
         return "raise:" + type(e).__name__ + ":" + hashlib.sha256(str(e).encode()).hexdigest()[:12]
@@ -95,11 +97,43 @@ def parse_one(name):
 
 KEEP = [False]
 KEPT: list = []
+EDIT = [False]
+
+
+def edit_in_place(c):
+    """What a caller does to a chart it was GIVEN, after it has been observed: every list reachable from the chart object
+    (event lists of every track) is edited in place - an event of the same chart appended, the list reversed.  A parse's
+    result is the caller's; a later parse that shares a list object with it (one module-level "empty" list handed to every
+    chart) sees the edit.  Only the caller's own result objects are touched, never the library's modules."""
+    try:
+        sentinel = c.sync_track.bpm_events.events[0]
+    except Exception:  # noqa: BLE001
+        sentinel = None
+    seen = set()
+
+    def walk(o, depth):
+        if id(o) in seen or depth > 4:
+            return
+        seen.add(id(o))
+        if isinstance(o, list):
+            o.append(sentinel)
+            o.reverse()
+            return
+        if isinstance(o, dict):
+            for v in list(o.values()):
+                walk(v, depth + 1)
+            return
+        d = getattr(o, "__dict__", None)
+        if isinstance(d, dict) and type(o).__module__.startswith("chartparse"):
+            for v in list(d.values()):
+                walk(v, depth + 1)
+    walk(c, 0)
 
 
 def run_history(j):
     out = []
     KEEP[0] = bool(j.get("keep"))
+    EDIT[0] = bool(j.get("edit"))
     for name in j["seq"]:
         before = cache_state()
         d = parse_one(name)
@@ -107,6 +141,7 @@ def run_history(j):
         delta = {k: [after[k][0] - before[k][0], after[k][1] - before[k][1]] for k in after}
         out.append({"text": name, "got": d, "cache": delta})
     KEEP[0] = False
+    EDIT[0] = False
     del KEPT[:]
     return {"kind": "history", "parses": out}
 
